@@ -24,6 +24,9 @@ type WriteBufItem[K comparable, V any] struct {
 	fromNVM    bool
 	nvmDirty   bool // UPDATE only, entry value changed and no longer same as secondary cache
 	hash       uint64
+	// used by WAIT only, closed by the maintenance goroutine
+	// once all items queued before this one are applied
+	done chan struct{}
 }
 
 type MetaData[K comparable, V any] struct {
